@@ -77,6 +77,7 @@ pub struct RunStats {
     pub entries_read: u64,
     pub rejections: u64,
     pub restarts: u64,
+    pub final_restarts: u64,
     pub syncs: u64,
     pub journal_checks: u64,
     pub files_compared: u64,
@@ -678,6 +679,7 @@ pub fn run_case(case: &HistCase, check_each: bool, final_restart: bool) -> (RunS
                         Ok(s) => r.st = s,
                         Err(o) => return Err(r.v(plan_label, "reopen_failed_after_rejections", format!("open after flush: {}", o.brief()))),
                     }
+                    r.stats.final_restarts += 1;
                     let after = r.snapshot().map_err(|e| r.v(plan_label, "unreadable_after_restart", e))?;
                     if before.state != after.state || before.entries != after.entries {
                         return Err(r.v(plan_label, "state_changed_by_restart", format!("{:?} -> {:?}", before.state, after.state)));
@@ -748,6 +750,7 @@ fn add_stats(out: &mut ShardOut, s: &RunStats) {
     out.count("entries_read", s.entries_read);
     out.count("rejected_calls", s.rejections);
     out.count("restarts", s.restarts);
+    out.count("restarts_at_the_end_of_the_history", s.final_restarts);
     out.count("syncs", s.syncs);
     out.count("journal_checks", s.journal_checks);
     out.count("files_compared_bytewise", s.files_compared);
